@@ -74,6 +74,10 @@ CHECKS = {
             "differential runtime monitor: fmt.Sprintf as executable oracle over generated directives, 3 entry points, small-MaxStringLen family, totality under recover",
             "Every generated format call is executed by the real formatter (tengo.Format, builtin format, fmt.sprintf in a compiled script) and its text is compared byte-for-byte with fmt.Sprintf on the corresponding Go values; arbitrary format bytes and all object kinds are run under recover for totality; a family runs with MaxStringLen in {16,64,300} and requires text equality or ErrStringLimit exactly when Go's text exceeds the limit. Held on the executions listed in evidence, nothing is proved.",
             "Trusted: Go's fmt of the local toolchain; the three exclusions named in the property; %T compared with Tengo type names."),
+    "C19": ("exploration",
+            "differential runtime monitor at script level: every documented member of text (incl. Regexp methods), math, base64, hex, enum and clock-independent times called from compiled scripts and judged against an independent reference table that calls the Go function named in docs/stdlib-*.md; modes: right-typed values, documented coercions, non-convertible types, wrong arities, Go-error inputs, string/bytes limit boundaries; sibling-separation accounting",
+            "217 table entries, each exercised in every tier: one case = 24 script-level calls (boundary pools + structured random arguments designed to separate siblings of the same signature, e.g. needle at both ends, non-ASCII, float specials, times in UTC/fixed/named zones with a non-UTC local zone in half the times cases). Engine result must equal the reference value (bit-exact floats, instant+zone for times), Go errors must arrive as error values, wrong arity/type must be the corresponding run-time error, no call may die with a Go panic. The run fails itself if any entry was never judged or never separated from all its siblings. Held on the calls counted in evidence.",
+            "Trusted: the local Go standard library as executable specification; the reference table written from the docs. Where docs are silent the verdict is weakened as listed in evidence assumptions (e.g. results longer than a configured maximum: limit error or Go value both accepted; misspelt names in the docs are counted, not judged). Out of scope: os, rand, fmt, json, times.now/since/until/sleep."),
     "C20": ("exploration",
             "runtime monitors on the real parser/compiler: independent minimal-parenthesis printer + shape comparison, independent semicolon-insertion rule vs explicit-semicolon twin, go/scanner+go/constant literal oracle, printed-form round trip through parser+compiler",
             "Random expression trees are printed with minimal parentheses from an independent precedence table and the real parser's AST shape is compared; token sequences are re-laid-out with newlines/comments in every gap and compared with the explicit-semicolon form predicted by an independent token rule (or both must be rejected); literal spellings are judged against go/scanner+go/constant; generated programs are printed with File.String(), re-parsed and re-compiled and their instructions/constants compared. Held on the inputs listed in evidence.",
